@@ -21,6 +21,7 @@ from __future__ import annotations
 import ast
 import enum as _enum
 import functools
+import collections as _collections
 import itertools as _itertools
 import re as _re
 from collections import ChainMap
@@ -856,6 +857,8 @@ class Interp(Folder):
             for x in it:
                 acc = self.call(fn, [acc, x], {}, node, env)
             return acc
+        if isinstance(f, type) and f.__module__ == "collections":
+            return _py(lambda: f(*args, **kwargs))
         if f in (tuple, list, set, dict, sum, len, range, max, min, sorted, frozenset, any, all, enumerate, str, int, bool, float, abs):
             if f in (max, min, sorted) and "key" in kwargs and isinstance(kwargs["key"], Func):
                 kf = kwargs["key"]
@@ -864,9 +867,30 @@ class Interp(Folder):
                 return list(f(*args, **kwargs))
             return _py(lambda: f(*args, **kwargs))
         if callable(f) and getattr(f, "__self__", None) is not None and isinstance(
-            f.__self__, (dict, list, set, str, tuple, DT, type({}.keys()), _re.Pattern)
+            f.__self__, (dict, list, set, str, tuple, DT, type({}.keys()), _re.Pattern, _collections.deque)
         ):
             return _py(lambda: f(*args, **kwargs))
+        if type(f).__name__ in ("methodcaller", "attrgetter", "itemgetter") and type(f).__module__ in ("operator", "_operator"):
+            # operator.methodcaller("m", *a)(x) = x.m(*a); attrgetter("a.b")(x) = x.a.b; itemgetter(k)(x) = x[k] - on interpreted values
+            red = f.__reduce__()
+            spec = red[1]
+            x = args[0]
+            if type(f).__name__ == "methodcaller":
+                mkw, mname, mpos = {}, spec[0] if spec else None, list(spec[1:])
+                if isinstance(red[0], functools.partial):  # (with keyword arguments __reduce__ gives partial(methodcaller, name, **kw), positional args)
+                    mkw, mname, mpos = dict(red[0].keywords), red[0].args[0], list(red[1])
+                m_ = self.call("getattr", [x, mname], {}, node, env)
+                return self.call(m_, mpos, mkw, node, env)
+            if type(f).__name__ == "attrgetter":
+                vals = []
+                for path in spec:
+                    v_ = x
+                    for part in path.split("."):
+                        v_ = self.call("getattr", [v_, part], {}, node, env)
+                    vals.append(v_)
+                return vals[0] if len(vals) == 1 else tuple(vals)
+            vals = [_py(lambda k=k: x[k]) for k in spec]
+            return vals[0] if len(vals) == 1 else tuple(vals)
         if callable(f) and getattr(f, "__module__", None) in ("operator", "_operator") and any(isinstance(a_, (Term, SymNS)) for a_ in args):
             # operator.and_(x, y) on symbolic operands is the term `x & y` builds
             opname = {"and_": "BitAnd", "or_": "BitOr", "xor": "BitXor", "add": "Add", "sub": "Sub", "mul": "Mult", "truediv": "Div", "floordiv": "FloorDiv",
@@ -876,6 +900,18 @@ class Interp(Folder):
                 return Term("op:" + opname, tuple(args))
         if callable(f) and getattr(f, "__module__", None) in ("operator", "_operator", "copy", "re", "math"):
             return _py(lambda: f(*args, **kwargs))
+        if f is _itertools.starmap:
+            return [self.call(args[0], list(self.iterate(xs)), {}, node, env) for xs in self.iterate(args[1])]
+        if f is _itertools.filterfalse:
+            return [x for x in self.iterate(args[1]) if not (bool(self.call(args[0], [x], {}, node, env)) if args[0] is not None else bool(x))]
+        if f is _itertools.accumulate and len(args) > 1:
+            out_, acc_ = [], None
+            for i_, x in enumerate(self.iterate(args[0])):
+                acc_ = x if i_ == 0 else self.call(args[1], [acc_, x], {}, node, env)
+                out_.append(acc_)
+            return out_
+        if f is _itertools.repeat and len(args) == 1:
+            self.err(node, "itertools.repeat without a count")
         if callable(f) and getattr(f, "__module__", None) == "itertools":
             return _py(lambda: list(f(*[self.iterate(a_) for a_ in args])))
         self.err(node, f"call of unsupported function {f!r}")
